@@ -33,6 +33,10 @@ CHECKS = {
    technique="fault enumeration: real runs with the io.Reader failing at every byte position (two failure modes x two delivery schedules) are recorded and validated by TLC against the Fault action of Trace_Runs.tla (bounded reads to a sticky fatal error, prefix equality with the fault-free run)",
    text="Every fault position of every small corpus input (all formats; sampled positions for large inputs) is executed on the real Transform; TLC accepts a faulted run only if it ends within fault-free-length+2 Reads in a non-continuable, sticky error (or in EOF with nothing missing) and every earlier result except possibly the last equals the fault-free run's. Calls run under a 2 s watchdog; hangs and panics are violations.",
    note="Trusted: TLC, the fault-injecting reader. Error identity for stickiness is (value or text). Faults are persistent from the first failure on (a reader that recovers is outside the property)."),
+ "C10": dict(cat="exploration", design="5/C10",
+   technique="multi-run trace validation: real runs of record sequences A, B, A.B, permutations and single-position replacements by failing records, for all 7 formats, checked by TLC against the Concat/Perm/Replace laws of Trace_Runs.tla",
+   text="Seeded record sequences drawn from per-format pools (ok records; records failing by type cast, multiple xpath matches, custom function error) are transformed alone, concatenated, permuted and with one position replaced; TLC checks the concatenation, permutation and replacement laws on every recorded family. Exploration: sequences are sampled; pools are small.",
+   note="Trusted: TLC; the record pools (validated on every run). Only (class, output bytes) are compared."),
 }
 
 def main():
